@@ -140,6 +140,15 @@ PROPS = {
         assumptions=ASSUME_WB + ["MatchSnapshot without values (documented warning) is excluded", "the summary grammar parsed is the NO_COLOR one"],
         stages=[dict(name="summary", run="^TestC20_", quick=500, thorough=5000, shards_quick=4, shards_thorough=16)],
     ),
+    "C11": dict(
+        rule="case = one test function of a real test program (root package, sub, sub/deep/er) whose body is a generated tree of 1-4 steps per level: calls of the five entry points with Dir in {unset, relative, nested relative, ../up, "
+             "./x/../x, absolute}, Filename (incl. '%', dots, unicode, spaces), Ext (incl. '.snap', '.%s'), package-level functions, call shapes {direct, closure, helper in the test file, helper in a non-test file, helper in another package} "
+             "with 0-3 extra frames, inside subtests / nested subtests with names containing '%', '/', spaces. Every case is executed three times: normal build from the package dir, normal build from a foreign working directory, "
+             "-trimpath build from the package dir; each time the exact set of created files (and the entry ids inside multi-entry files) must equal the statement's formula computed from the known source path. "
+             "every case is non-trivial (three build/cwd variants); classes record option kinds, shapes, helper depth; distinct = distinct canonical JSON",
+        assumptions=["the file name is asserted only when the first *_test.go frame is the file that declares the test function (the scenario program is built that way)", "-trimpath is asserted for cwd = package directory only (documented limitation otherwise)"],
+        stages=[dict(name="location", engine="bb", run="^TestC11_", quick=60, thorough=1500, shards_quick=8, shards_thorough=16, trimpath=True)],
+    ),
     "C12": dict(
         rule="differential: a sequence of 1-8 calls (five APIs) through shared Configs A, B (B built from the SAME option values as A plus overrides) and configs built late, "
              "versus the same sequence with a brand-new Config (fresh option values) per call; outcomes and the resulting directory trees must be identical. "
